@@ -590,7 +590,7 @@ func oneTable(seed int64) tableResult {
 }
 
 func Run(args []string) {
-	rep := vh.NewReport(command, "random type tables (4 named types of depth<=2, root of depth<=3: scalars of 5 kinds, any, arrays, objects with required/optional properties, references @a|@b|@c incl. recursive ones, nullable) printed as JSight text -> real AddType/Check/Validate, same IR as S-expressions -> Lean VR.validateT; 12 documents per table: 5 sampled from the schema, 5 sampled then mutated, 2 random; tables refused by Check are skipped and counted; nontrivial = root is an array, object or reference (verdict decided below the root / through a named type); a difference on a table where a non-nullable reference position whose names all end in a cycle of pure references (@a = @a: no alternative at all) is reachable from the root carries the class K-C09-cycle")
+	rep := vh.NewReport(command, "random type tables (4 named types of depth<=2, root of depth<=3: scalars of 5 kinds, any, arrays, objects with required/optional properties, references @a|@b|@c incl. recursive ones, nullable) printed as JSight text -> real AddType/Check/Validate, same IR as S-expressions -> Lean VR.validateT; 12 documents per table: 5 sampled from the schema, 5 sampled then mutated, 2 random; tables refused by Check are skipped and counted; nontrivial = root is an array, object or reference (verdict decided below the root / through a named type); document string scalars are drawn every second time from a pool of 32 strings whose content looks like another JSON kind (\"1.5\", \"a.b\", \"true\", \"null\", \"{}\", \"1e5\", \"\", \" \", the same with \\u escapes); a case whose document holds such a string is validated 8 times and every repeat must give the model verdict (UNSTABLE otherwise); a difference on a table where a non-nullable reference position whose names all end in a cycle of pure references (@a = @a: no alternative at all) is reachable from the root carries the class K-C09-cycle")
 	r := vh.NewRand(salt)
 	nTables := vh.Pick(3000, 100000)
 	const batch = 4000
